@@ -114,8 +114,18 @@ func alphabet(t reflect.Type, small bool) []reflect.Value {
 			}
 			add(mkDate(c))
 		}
+		// the zero 'no value' date held in a Location (IsZero() is true whatever the Location says)
+		for _, loc := range []*time.Location{time.UTC, time.FixedZone("-5", -5*3600), time.FixedZone("+14", 14*3600), time.Local} {
+			add(types.Date(time.Time{}.In(loc)))
+		}
+		// and ordinary dates held in other Locations than the process zone
+		add(types.Date(time.Date(2024, 2, 29, 0, 0, 0, 0, time.FixedZone("-11", -11*3600))))
+		add(types.Date(time.Date(2024, 12, 31, 23, 0, 0, 0, time.FixedZone("+13", 13*3600))))
 	case tDateTime:
 		add(types.DateTime{})
+		for _, loc := range []*time.Location{time.UTC, time.FixedZone("-5", -5*3600), time.FixedZone("+14", 14*3600), time.Local} {
+			add(types.DateTime(time.Time{}.In(loc)))
+		}
 		for i, c := range civilDates[1:] {
 			if small && i%4 != 0 {
 				continue
